@@ -146,13 +146,21 @@ static bytes the_key(const Op &op, const bytes &key)
 static StepRes run_step(const Op &op, const bytes &input, const bytes &key, const std::string &dir, int idx)
 {
   StepRes r;
-  bytes k = the_key(op, key);
+  // the caller keeps ONE buffer per key for the whole process (a library user does not copy its key for every call):
+  // all steps of a history that use the same key are handed the same 16 bytes of memory. A fresh process starts with
+  // fresh buffers.
+  static bytes slots[4];
+  int slot = (op.wrongkey ? op.keyid + 1 + (op.wrongkey & 1) : op.keyid) & 3;
+  if (slots[slot].empty())
+    slots[slot] = the_key(op, key);
+  bytes &k = slots[slot];
   wapi::set_sizes(op.chunk, 4);
   wapi::set_fake_time(1700000000);
   wapi::PipeCfg pc;
   pc.T = op.T;
   pc.chunk = op.chunk;
   pc.sched = wapi::SchedSpec::parse(op.sched);
+  pc.key_buf = k.data();
   if (op.level == "api")
   {
     pc.null_input = op.tamper == 9; // "the input file could not be opened": the operation gets a NULL stream and refuses
